@@ -8,8 +8,9 @@ from .model import EXPIRY, PERIOD
 class Exec(object):
     """One execution of one history on one World."""
 
-    def __init__(self, cfg=None, seed=0, track=True, workdir=None, timer=True, monitors=(), t0=None):
-        self.cfg = cfg or Config()
+    def __init__(self, cfg=None, seed=0, track=True, workdir=None, timer=True, monitors=(), t0=None, legacy=False):
+        self.cfg = copy.copy(cfg) if cfg is not None else Config()      # a restart step may change options
+        self.legacy = legacy
         self.own_dir = workdir is None
         self.workdir = workdir or new_workdir("h")
         self.tracker = Tracker(self.cfg) if track else None
@@ -26,9 +27,26 @@ class Exec(object):
             self.world.set_time(T0)
 
     def start(self):
+        if self.legacy:
+            self.make_legacy_files()
         self.world.start(start_timer=self.timer)
         self.started = True
         return self
+
+    def make_legacy_files(self):
+        """Database files as an earlier installation of the same schema version left them: created from the
+        schema snapshots kept in mon/legacy/ (channel v1, usage v2), not from the tree under test.  A tree that
+        changes its schema files without a version bump and upgrader must still work on such files."""
+        import sqlite3
+        here = os.path.join(os.path.dirname(os.path.abspath(__file__)), "legacy")
+        for path, schema, version in ((self.world.channel_path, "channel-v1.sql", 1), (self.world.usage_path, "usage-v2.sql", 2)):
+            if os.path.exists(path) or (schema.startswith("usage") and not self.cfg.usage):
+                continue
+            c = sqlite3.connect(path)
+            c.executescript(open(os.path.join(here, schema)).read())
+            c.execute("INSERT INTO version (version) VALUES (?)", (version,))
+            c.commit()
+            c.close()
 
     def resolve(self, v):
         if isinstance(v, dict):
@@ -73,6 +91,13 @@ class Exec(object):
             if self.tracker is not None:
                 self.tracker.check_sweep_counts(w)
             w.stop()
+            if len(s) > 1 and isinstance(s[1], dict):
+                # the operator restarts the service with other options on the same files
+                for k, v in s[1].items():
+                    setattr(self.cfg, k, v)
+                if self.tracker is not None:
+                    self.tracker.blur = self.cfg.blur
+                    self.tracker.usage_on = self.cfg.usage
             w.start(start_timer=self.timer)
         elif op == "sweep":
             w.explicit_sweep()
